@@ -323,5 +323,4 @@ def single_after_commit(stmts, k, commit_idx):
 
 
 def replay(ctx, doc):
-    print("C20 replays are re-generated from the seed (fork-based): run the check with VERIF_SEED=%s" % doc.get("seed"))
-    return True
+    return None   # re-run the stream with the recorded seed (check.py does it)
